@@ -118,6 +118,26 @@ def eval_trunc(case):
                 cc = CryptContext(schemes=[name], truncate_error=True, **opts)
                 do_hash = lambda s: cc.hash(s, **ctxkw)  # noqa: E731
                 do_verify = lambda s, h: cc.verify(s, h, **ctxkw)  # noqa: E731
+            elif mode in ("off_chain", "on_chain", "off_chain_string", "off_chain3", "off_object_in_context"):
+                # the policy switched back and forth along a chain of using() calls: the LAST one decides
+                if mode == "off_chain":
+                    Hc = H.using(truncate_error=True, **kw).using(truncate_error=False)
+                elif mode == "off_chain_string":
+                    Hc = H.using(truncate_error="true", **kw).using(truncate_error="false")
+                elif mode == "off_chain3":
+                    Hc = H.using(truncate_error=False, **kw).using(truncate_error=True).using(truncate_error=False)
+                elif mode == "on_chain":
+                    Hc = H.using(truncate_error=False, **kw).using(truncate_error=True)
+                else:
+                    # a strict hasher object listed in a context whose policy for the scheme says 'off'
+                    cc = CryptContext(schemes=[H.using(truncate_error=True, **kw)], **{f"{name}__truncate_error": False})
+                    Hc = None
+                if Hc is not None:
+                    do_hash = lambda s: Hc.hash(s, **ctxkw)  # noqa: E731
+                    do_verify = lambda s, h: Hc.verify(s, h, **ctxkw)  # noqa: E731
+                else:
+                    do_hash = lambda s: cc.hash(s, **ctxkw)  # noqa: E731
+                    do_verify = lambda s, h: cc.verify(s, h, **ctxkw)  # noqa: E731
             elif mode in ("on_object_update", "on_object_copy"):
                 # the policy sits on the hasher OBJECT handed to the context; reconfiguring the context for something
                 # unrelated must not swap the object for the stock hasher of the same name
@@ -455,6 +475,7 @@ def run(ctx):
                 if backend == "builtin" and HS.base_name(name) == "bcrypt":
                     continue
                 for mode in ("on_context_update", "off_context_update", "on_context_copy", "off_context_load", "on_object_update", "on_object_copy",
+                             "off_chain", "on_chain", "off_chain_string", "off_chain3", "off_object_in_context",
                              "on_category_all", "off_category_all", "on_category_all_ini", "on_category_scheme", "off_category_scheme"):
                     for shape, p in (short[::3] if ctx.quick else short):
                         cases.append({"part": "trunc", "hasher": name, "backend": backend, "mode": mode, "shape": shape,
